@@ -48,7 +48,7 @@ pub fn finish_typed(ctx: &mut Ctx, r: Result<Result<TypedOut, AllocError>, Box<d
                         ctx.rep.count("panicking_method_panicked_on_refusal");
                     }
                 }
-                PanicKind::Msg(m) if m == "capacity overflow" && !is_try => ctx.rep.count("capacity_overflow_panic"),
+                PanicKind::Msg(m) if (m == "capacity overflow" || m == "invalid slice layout") && !is_try => ctx.rep.count("capacity_overflow_panic"),
                 PanicKind::Msg(m) => {
                     if is_try {
                         ctx.viol("C07", format!("try_method_panicked:{name}"), m);
